@@ -127,8 +127,10 @@ theorem isum_keys_indicator (I : Inst) (t w0 s0 : Nat) (c : Int) :
   by_cases ha : w0 < I.nW <;> by_cases hb : s0 < (I.task t).nS <;> simp [ha, hb]
 
 /-- Weighted sum of the placement values of a task: only the selected pair contributes. -/
-theorem isum_keys_xF (hv : ValidFull I fp) (hwr : I.wfRunning = true) {t : Nat} (ht : t < I.nT)
-    (g : Nat → Int) :
+theorem isum_keys_xF
+    (hpw : ∀ t w s, t < I.nT → I.running t = false → fp.place t = some (w, s) →
+      w < I.nW ∧ s < (I.task t).nS ∧ compatible (I.worker w) ((I.task t).strat s) = true)
+    (hwr : I.wfRunning = true) {t : Nat} (ht : t < I.nT) (g : Nat → Int) :
     isum ((I.keys t).map (fun k => g k.2 * xF I fp t k.1 k.2)) =
       if I.running t then g (I.task t).prevS
       else match fp.place t with
@@ -152,7 +154,7 @@ theorem isum_keys_xF (hv : ValidFull I fp) (hwr : I.wfRunning = true) {t : Nat} 
       intro k _
       simp [xF, hr, hp]
     | some ws =>
-      have hw := hv.placeWf t ws.1 ws.2 ht hr (by simpa using hp)
+      have hw := hpw t ws.1 ws.2 ht hr (by simpa using hp)
       rw [isum_map_eq _ _ (fun k => if k.1 = ws.1 ∧ k.2 = ws.2 then g ws.2 else 0)]
       · rw [isum_keys_indicator]; simp [hw.1, hw.2.1]
       · intro k _
@@ -171,7 +173,7 @@ theorem isum_keys_xF (hv : ValidFull I fp) (hwr : I.wfRunning = true) {t : Nat} 
 theorem psum_sigma (hv : ValidFull I fp) (hwr : I.wfRunning = true) {t : Nat} (ht : t < I.nT) :
     psum I (sigmaOf I fp) t = placedI I fp t := by
   unfold psum
-  have := isum_keys_xF hv hwr ht (fun _ => (1 : Int))
+  have := isum_keys_xF hv.placeWf hwr ht (fun _ => (1 : Int))
   rw [isum_map_eq _ _ (fun k => (fun _ => (1 : Int)) k.2 * xF I fp t k.1 k.2)
     (fun k _ => by simp [xval_sigma hv ht]), this]
   unfold placedI placedB
@@ -182,7 +184,7 @@ theorem psum_sigma (hv : ValidFull I fp) (hwr : I.wfRunning = true) {t : Nat} (h
 theorem dur_sigma (hv : ValidFull I fp) (hwr : I.wfRunning = true) {t : Nat} (ht : t < I.nT) :
     dur I (sigmaOf I fp) t = durF I fp t := by
   unfold dur
-  have := isum_keys_xF hv hwr ht (fun s => I.runtime t s)
+  have := isum_keys_xF hv.placeWf hwr ht (fun s => I.runtime t s)
   rw [isum_map_eq _ _ (fun k => (fun s => I.runtime t s) k.2 * xF I fp t k.1 k.2)
     (fun k _ => by simp [xval_sigma hv ht]), this]
   rfl
@@ -479,6 +481,281 @@ theorem constrs_hold (hv : ValidFull I fp) (hwr : I.wfRunning = true) (hwp : I.w
         by_cases hk : (∀ a ∈ (I.rewardTasks (I.graphs.getD gi "")).map Var.treward, sigmaOf I fp a = 1)
         · rw [if_pos hk, if_pos (key.mp hk)]
         · rw [if_neg hk, if_neg (fun hh => hk (key.mpr hh))]
+
+end
+
+/-! ### Converse: a feasible point is a valid full plan (as-coded reading) -/
+
+/-- The deadline row, semantically (same statement as `C12_Ilp.deadline_row`). -/
+theorem C11_deadline_row {I : Inst} {σ : Var → Int} (h : sat σ (gen I)) {t : Nat} (ht : t < I.nT)
+    (hr : I.running t = false) (he : I.enforce t = true) :
+    σ (.start t) + dur I σ t ≤ (I.task t).deadline := by
+  have hc : Constr.lin s!"{I.tname t}_enforce_deadlines" (LinExpr.add (I.startE t) (I.durE t)) .le
+      (I.task t).deadline ∈ I.constrs :=
+    mem_constrs_task (mem_nonRunning.mpr ⟨ht, hr⟩) (by simp [Inst.cDeadline, he])
+  have := sat_constr h hc
+  simp only [Constr.holds, Sense.holds, LinExpr.eval_add, eval_durE] at this
+  have hs : (I.startE t).eval σ = σ (.start t) := sval_var hr
+  omega
+
+/-- The full plan read off an assignment. -/
+def fpOf (I : Inst) (σ : Var → Int) : FullPlan := ⟨fun t => σ (.start t), fun t => I.chosen σ t⟩
+
+section
+variable {I : Inst} {σ : Var → Int}
+
+theorem fpOf_placeWf (t w s : Nat) (_ht : t < I.nT) (_hr : I.running t = false)
+    (hp : (fpOf I σ).place t = some (w, s)) :
+    w < I.nW ∧ s < (I.task t).nS ∧ compatible (I.worker w) ((I.task t).strat s) = true := by
+  have := chosen_spec (I := I) (σ := σ) (t := t) (w := w) (s := s) hp
+  exact ⟨this.1, this.2.1, (hasVar_compatible this.2.2.1).2⟩
+
+/-- Exactly the chosen pair has value 1. -/
+theorem xval_eq_xF (h : sat σ (gen I)) {t : Nat} (ht : t < I.nT) {w s : Nat} (hw : w < I.nW)
+    (hs : s < (I.task t).nS) : xval I σ t w s = xF I (fpOf I σ) t w s := by
+  unfold xF
+  cases hr : I.running t with
+  | true => simp [xval_running hr]
+  | false =>
+    simp only [Bool.false_eq_true, ↓reduceIte]
+    have hb := xval_binary h ht hw hs
+    by_cases hp : (fpOf I σ).place t = some (w, s)
+    · rw [if_pos hp]; exact chosen_xval hp
+    · rw [if_neg hp]
+      rcases hb with h0 | h1
+      · exact h0
+      · exfalso
+        -- (w, s) has value 1 but is not the chosen pair
+        cases hv : I.hasVar t w s with
+        | false => rw [xval_novar hr hv] at h1; omega
+        | true =>
+          have hx : σ (.x t w s) = 1 := by
+            have := xval_var (σ := σ) hv
+            rw [this] at h1; exact h1
+          have hsome := chosen_isSome hw hs hv hx
+          cases hc : I.chosen σ t with
+          | none => rw [hc] at hsome; cases hsome
+          | some ws =>
+            have hcs := chosen_spec (w := ws.1) (s := ws.2) (by simpa using hc)
+            have hx0 := chosen_xval (I := I) (σ := σ) (t := t) (w := ws.1) (s := ws.2) (by simpa using hc)
+            have hne : ¬ (ws.1 = w ∧ ws.2 = s) := by
+              intro he; apply hp
+              show I.chosen σ t = some (w, s)
+              rw [hc, ← he.1, ← he.2]
+            -- both pairs contribute to Σ x, which is at most 1
+            have hle := psum_le_one h ht hr
+            have : (2 : Int) ≤ psum I σ t := by
+              unfold psum
+              have e1 := isum_keys_indicator I t ws.1 ws.2 1
+              have e2 := isum_keys_indicator I t w s 1
+              simp only [hcs.1, hcs.2.1, and_self, ↓reduceIte] at e1
+              simp only [hw, hs, and_self, ↓reduceIte] at e2
+              have hsum := isum_map_add (I.keys t)
+                (fun k => if k.1 = ws.1 ∧ k.2 = ws.2 then (1 : Int) else 0)
+                (fun k => if k.1 = w ∧ k.2 = s then (1 : Int) else 0)
+              have hpt := isum_map_le (I.keys t)
+                (fun k => (if k.1 = ws.1 ∧ k.2 = ws.2 then (1 : Int) else 0) + (if k.1 = w ∧ k.2 = s then (1 : Int) else 0))
+                (fun k => xval I σ t k.1 k.2)
+                (by
+                  intro k hk
+                  have hk' := mem_keys.mp (by simpa using hk : (k.1, k.2) ∈ I.keys t)
+                  have hnn := xval_nonneg h ht hk'.1 hk'.2
+                  show (if k.1 = ws.1 ∧ k.2 = ws.2 then (1 : Int) else 0) +
+                      (if k.1 = w ∧ k.2 = s then (1 : Int) else 0) ≤ xval I σ t k.1 k.2
+                  by_cases ha : k.1 = ws.1 ∧ k.2 = ws.2
+                  · have hb' : ¬ (k.1 = w ∧ k.2 = s) := by
+                      intro hb'; apply hne; rw [← ha.1, ← ha.2]; exact hb'
+                    have e : xval I σ t k.1 k.2 = 1 := by rw [ha.1, ha.2]; exact hx0
+                    rw [if_pos ha, if_neg hb', e]; omega
+                  · by_cases hb' : k.1 = w ∧ k.2 = s
+                    · have e : xval I σ t k.1 k.2 = 1 := by rw [hb'.1, hb'.2]; exact h1
+                      rw [if_neg ha, if_pos hb', e]; omega
+                    · rw [if_neg ha, if_neg hb']; omega)
+              omega
+            omega
+
+theorem psum_eq_placedI (h : sat σ (gen I)) (hwr : I.wfRunning = true) {t : Nat} (ht : t < I.nT) :
+    psum I σ t = placedI I (fpOf I σ) t := by
+  unfold psum
+  have := isum_keys_xF (fp := fpOf I σ) fpOf_placeWf hwr ht (fun _ => (1 : Int))
+  rw [isum_map_eq _ _ (fun k => (fun _ => (1 : Int)) k.2 * xF I (fpOf I σ) t k.1 k.2)
+    (fun k hk => by
+      have hk' := mem_keys.mp (by simpa using hk : (k.1, k.2) ∈ I.keys t)
+      simp [xval_eq_xF h ht hk'.1 hk'.2]), this]
+  unfold placedI placedB
+  cases hr : I.running t with
+  | true => simp
+  | false => cases hp : (fpOf I σ).place t <;> simp
+
+theorem dur_eq_durF (h : sat σ (gen I)) (hwr : I.wfRunning = true) {t : Nat} (ht : t < I.nT) :
+    dur I σ t = durF I (fpOf I σ) t := by
+  unfold dur
+  have := isum_keys_xF (fp := fpOf I σ) fpOf_placeWf hwr ht (fun s => I.runtime t s)
+  rw [isum_map_eq _ _ (fun k => (fun s => I.runtime t s) k.2 * xF I (fpOf I σ) t k.1 k.2)
+    (fun k hk => by
+      have hk' := mem_keys.mp (by simpa using hk : (k.1, k.2) ∈ I.keys t)
+      simp [xval_eq_xF h ht hk'.1 hk'.2]), this]
+  rfl
+
+theorem sval_eq_svalF (t : Nat) : sval I σ t = svalF I (fpOf I σ) t := by
+  unfold sval svalF Inst.startE
+  split <;> simp [fpOf]
+
+theorem dval_eq_dF (h : sat σ (gen I)) {t : Nat} (ht : t < I.nT) {w : Nat} (hw : w < I.nW) (r : String) :
+    dval I σ t w r = dF I (fpOf I σ) t w r := by
+  unfold dval dF
+  apply isum_map_eq
+  intro s hs
+  rw [xval_eq_xF h ht hw (mem_stratsNeeding.mp hs).1]
+
+/-- The `Overlap` variable of a feasible point is "closed intervals meet, not dependent". -/
+theorem overlap_eq_ovF (h : sat σ (gen I)) (hwr : I.wfRunning = true) {a b : Nat}
+    (hp : (a, b) ∈ I.pairs) : σ (.overlap a b) = ovF I (fpOf I σ) a b := by
+  have hp' := mem_pairs.mp hp
+  unfold ovF
+  cases hd : I.dependent a b with
+  | true =>
+    have hc := sat_constr h (mem_constrs_overlap hp (c := .lin s!"{I.tname a}_no_overlap_{I.tname b}_dependent"
+      (LinExpr.ofVar (.overlap a b)) .eq 0) (by simp [Inst.cOverlap, hd]))
+    simpa [Constr.holds, Sense.holds] using hc
+  | false =>
+    simp only [Bool.false_eq_true, ↓reduceIte]
+    have hbin := after_before_binary h hp hd
+    have hmem : ∀ c ∈ I.cOverlap (a, b), c ∈ I.constrs := fun c hc => mem_constrs_overlap hp hc
+    have r0 := sat_constr h (hmem (.ind s!"{I.tname a}_starts_after_{I.tname b}_ends_False" (.after a b) 0
+      (I.afterExpr a b) .le 0) (by simp [Inst.cOverlap, hd]))
+    have r1 := sat_constr h (hmem (.ind s!"{I.tname a}_starts_after_{I.tname b}_ends_True" (.after a b) 1
+      (I.afterExpr a b) .ge 1) (by simp [Inst.cOverlap, hd]))
+    have r2 := sat_constr h (hmem (.ind s!"{I.tname a}_ends_before_{I.tname b}_starts_False" (.before a b) 0
+      (I.beforeExpr a b) .ge 0) (by simp [Inst.cOverlap, hd]))
+    have r3 := sat_constr h (hmem (.ind s!"{I.tname a}_ends_before_{I.tname b}_starts_True" (.before a b) 1
+      (I.beforeExpr a b) .le (-1)) (by simp [Inst.cOverlap, hd]))
+    have r4 := sat_constr h (hmem (.lin s!"{I.tname a}_overlap_{I.tname b}"
+        (LinExpr.add (LinExpr.add (LinExpr.ofVar (.after a b)) (LinExpr.ofVar (.before a b)))
+          (LinExpr.ofVar (.overlap a b))) .eq 1) (by simp [Inst.cOverlap, hd]))
+    simp only [Constr.holds, Sense.holds, eval_afterExpr, eval_beforeExpr, LinExpr.eval_add,
+      LinExpr.eval_ofVar, sval_eq_svalF, dur_eq_durF h hwr hp'.1, dur_eq_durF h hwr hp'.2.1] at r0 r1 r2 r3 r4
+    have d1 := durF_nonneg I (fpOf I σ) a
+    have d2 := durF_nonneg I (fpOf I σ) b
+    by_cases hA : afterF I (fpOf I σ) a b <;> by_cases hB : beforeF I (fpOf I σ) a b
+    · exfalso
+      unfold afterF at hA; unfold beforeF at hB
+      omega
+    · simp only [hA, hB, or_false, ↓reduceIte]
+      unfold afterF at hA; unfold beforeF at hB
+      rcases hbin.1 with h0 | h1'
+      · have := r0 h0; omega
+      · rcases hbin.2 with h0 | h1''
+        · omega
+        · have := r3 h1''; omega
+    · simp only [hA, hB, or_true, ↓reduceIte]
+      unfold afterF at hA; unfold beforeF at hB
+      rcases hbin.2 with h0 | h1''
+      · have := r2 h0; omega
+      · rcases hbin.1 with h0 | h1'
+        · omega
+        · have := r1 h1'; omega
+    · simp only [hA, hB, or_self, ↓reduceIte]
+      unfold afterF at hA; unfold beforeF at hB
+      rcases hbin.1 with h0 | h1'
+      · rcases hbin.2 with h0' | h1''
+        · omega
+        · have := r3 h1''; omega
+      · have := r1 h1'; omega
+
+/-- **The feasible set of `gen inst` is exactly the as-coded reading** (soundness half). -/
+theorem validFull_of_sat (h : sat σ (gen I)) (hwr : I.wfRunning = true) (hwp : I.wfParents = true) :
+    ValidFull I (fpOf I σ) where
+  placeWf := fpOf_placeWf
+  startLb := fun t ht hr => start_lb h ht hr
+  deadline := by
+    intro t ht hr he
+    have := C11_deadline_row h ht hr he
+    rw [← dur_eq_durF h hwr ht]
+    exact this
+  required := by
+    intro t ht hr hs hre
+    have h1 := psum_eq_one_of_scheduled h ht hr hs hre
+    rw [psum_eq_placedI h hwr ht] at h1
+    unfold placedI placedB at h1
+    cases hp : ((fpOf I σ).place t).isSome with
+    | true => rfl
+    | false => simp [hr, hp] at h1
+  prec := by
+    intro c p w s hc hr hp hw hs
+    have hne : (I.parentVars c).isEmpty = false := by
+      cases hl : I.parentVars c with
+      | nil => simp [hl] at hp
+      | cons _ _ => simp
+    have hm := mem_nonRunning.mpr ⟨hc, hr⟩
+    have hrow : Constr.lin
+        s!"{I.tname c}_start_after_{I.tname p}_on_worker_{(I.worker w).name}_with_batch_size_{((I.task p).strat s).batch}_runtime_{((I.task p).strat s).runtime}"
+        (LinExpr.sub (I.startE c) (LinExpr.add (I.startE p) (LinExpr.smul (I.runtime p s + 1) (I.xE p w s))))
+        .ge 0 ∈ I.constrs := by
+      apply mem_constrs_deps hm
+      simp only [Inst.cDeps, hne, Bool.false_eq_true, ↓reduceIte, List.mem_append, List.mem_flatMap]
+      refine Or.inl ⟨p, hp, ?_⟩
+      simp only [Inst.cStartAfter, List.mem_map]
+      exact ⟨(w, s), mem_keys.mpr ⟨hw, hs⟩, rfl⟩
+    have := sat_constr h hrow
+    simp only [Constr.holds, Sense.holds, LinExpr.eval_sub, LinExpr.eval_add, LinExpr.eval_smul] at this
+    have e1 : (I.startE c).eval σ = σ (.start c) := sval_var hr
+    have e2 : (I.xE p w s).eval σ = xF I (fpOf I σ) p w s := xval_eq_xF h (mem_parentVars.mp hp).1 hw hs
+    have e3 : (I.startE p).eval σ = svalF I (fpOf I σ) p := sval_eq_svalF p
+    rw [e1, e2, e3] at this
+    show svalF I (fpOf I σ) p + (I.runtime p s + 1) * xF I (fpOf I σ) p w s ≤ σ (.start c)
+    omega
+  parents := by
+    intro c hc hr hne hpl
+    have h1 : 1 ≤ psum I σ c := by
+      rw [psum_eq_placedI h hwr hc]; simp [placedI, placedB, hpl]
+    unfold allParentsF
+    simp only [Bool.and_eq_true, List.all_eq_true, decide_eq_true_eq]
+    have hall : ∀ p ∈ I.parentVars c, psum I σ p = 1 := fun p hp =>
+      C11_Ilp.child_placed_parents_placed h hwr hwp hc hr hp h1
+    refine ⟨fun p hp => ?_, ?_⟩
+    · have := hall p hp
+      rw [psum_eq_placedI h hwr (mem_parentVars.mp hp).1] at this
+      unfold placedI at this
+      cases hb : placedB I (fpOf I σ) p with
+      | true => rfl
+      | false => simp [hb] at this
+    · -- Σ over parents = nParents, each term 1
+      have hm := mem_nonRunning.mpr ⟨hc, hr⟩
+      have hF : Constr.ind s!"{I.tname c}_placement_False" (.allParents c) 0 (I.sumX c) .eq 0 ∈ I.constrs :=
+        mem_constrs_deps hm (by simp [Inst.cDeps, hne])
+      have hF' := sat_constr h hF
+      simp only [Constr.holds, Sense.holds, eval_sumX] at hF'
+      have hb := C11_Ilp.allParents_binary h hc hr hne
+      have hone : σ (.allParents c) = 1 := by
+        rcases hb with h0 | h1'
+        · have := hF' h0; omega
+        · exact h1'
+      have hT : Constr.ind s!"{I.tname c}_parents_placed_True" (.allParents c) 1 (I.parentExpr c) .eq
+          (I.nParents c : Int) ∈ I.constrs :=
+        mem_constrs_deps hm (by simp [Inst.cDeps, hne])
+      have hT' := sat_constr h hT hone
+      simp only [Sense.holds, C11_Ilp.eval_parentExpr] at hT'
+      have : isum ((I.parentVars c).map (fun p => psum I σ p)) = ((I.parentVars c).length : Nat) := by
+        rw [isum_map_eq _ _ (fun _ => (1 : Int)) hall]
+        clear hall hT'
+        induction I.parentVars c with
+        | nil => simp
+        | cons x xs ih => simp [ih]; omega
+      rw [this] at hT'
+      exact_mod_cast hT'
+  capacity := by
+    intro t1 w r ht1 hw hskip hr
+    have hrow := resource_row h ht1 hw hskip hr
+    rw [dval_eq_dF h ht1 hw] at hrow
+    have : isum ((I.others t1 w).map (fun t2 => dval I σ t2 w r * σ (.overlap t1 t2))) =
+        isum ((I.others t1 w).map (fun t2 => dF I (fpOf I σ) t2 w r * ovF I (fpOf I σ) t1 t2)) := by
+      apply isum_map_eq
+      intro t2 ht2
+      simp only [Inst.others, List.mem_filter, List.mem_range, Bool.and_eq_true, bne_iff_ne] at ht2
+      rw [dval_eq_dF h ht2.1 hw, overlap_eq_ovF h hwr (mem_pairs.mpr ⟨ht1, ht2.1, ht2.2.1⟩)]
+    rw [this] at hrow
+    exact hrow
 
 end
 
